@@ -115,6 +115,7 @@ class LoopbackTransport(object):
         self.run.wire.append(ent)
         resp = self.dispatcher._marshaled_dispatch(request_body, self.run.loop_dispatch())
         ent["resp"] = resp
+        self.run.wire_done.append(ent)  # order in which the exchanges ended (differs from the order they began when they nest)
         return resp
 
     def close(self):
@@ -134,6 +135,7 @@ class SysRun(object):
         self.npool = None
         self.url = None
         self.wire = []  # loopback transcript
+        self.wire_done = []
         self.histories = {}
         self.ref_mode = False
         self.ref_calls = []
@@ -180,6 +182,18 @@ class SysRun(object):
                     return run.shared_object(spec.get("ret"))
                 if kind == "exit":
                     raise SystemExit(3)
+                if kind == "relay":
+                    # a served method that calls another method through a second proxy, which records into the same
+                    # History as the proxy of the caller (nested exchanges)
+                    if run.ref_mode:
+                        return ["relayed", spec.get("ret")]
+                    return ["relayed", getattr(run.relay_proxy(), spec["inner"])(*args)]
+                if kind == "shutdown":
+                    # the usual "stop" remote procedure of a pooled server: the method runs on a pool worker, not on
+                    # the serving thread, and asks the serving loop to end
+                    if not run.ref_mode:
+                        run.server.shutdown()
+                    return ["stopping"] + list(args)
                 if kind == "sub":
                     return _Sub()
                 if kind == "baddump":
@@ -317,7 +331,7 @@ class SysRun(object):
             if unix and sv.get("abstract"):
                 addr = "\0sim-abstract"  # Linux abstract-namespace address
             fam = socket.AF_UNIX if unix else socket.AF_INET
-            Quiet = quiet_handler(js)
+            Quiet = quiet_handler(js, bool(sv.get("http11")))
             handler = Quiet
             cd = sv.get("custom_dispatch")
             if cd in ("server", "direct", True):
@@ -381,6 +395,13 @@ class SysRun(object):
             return jc.ServerProxy("http://loopback/", transport=LoopbackTransport(self.server, self), **kw)
         return jc.ServerProxy(self.url, **kw)
 
+    def relay_proxy(self):
+        """A second proxy on the loopback dispatcher, sharing the History of client 0."""
+        if getattr(self, "_relay", None) is None:
+            self._relay = self.jc.ServerProxy("http://loopback/", transport=LoopbackTransport(self.server, self),
+                                               history=self.histories.get(0), config=self.client_config(self.p["clients"][0]))
+        return self._relay
+
     def client_config(self, c):
         import jsonrpclib.config as cfgmod
 
@@ -402,6 +423,16 @@ class SysRun(object):
         kind = op[0]
         s.emit("op.call", ci, oi, kind)
         out = None
+        if self.p["server"].get("http11") and kind in ("raw", "rawtrunc", "abort"):
+            # these operations open a connection of their own; a client that kept its proxy's persistent connection
+            # open meanwhile would hold a worker of the server (the only one of a plain server) while waiting for
+            # another: it lets go of the first connection, as a client with one connection at a time does
+            try:
+                proxy("close")()
+            except core.SimAbort:
+                raise
+            except BaseException:
+                pass
         try:
             if kind in ("call", "call2"):
                 val = self._invoke(proxy, op[1], op[2])
@@ -623,8 +654,14 @@ class SysRun(object):
             # (shutdown() is only ever called while serve_forever() runs: calling it otherwise is a documented misuse of
             # socketserver, which leaves the shutdown request pending for the next serve_forever())
             life = "serve"
-        if is_net and life in ("serve", "shutdown-inflight", "close-while-serving"):
+        if is_net and life in ("serve", "shutdown-inflight", "close-while-serving", "stop-rpc"):
             serve_thread = s.spawn(lambda: srv.serve_forever(0.5), "serve_forever", "server")
+            if p.get("lifecycle") == "serve-twice":
+                # second serving period: socketserver's "is shut down" event is still set from the first one until the
+                # new loop clears it, so a shutdown() issued before the loop runs returns at once and the loop then
+                # starts on whatever the owner did next (documented: shutdown() must be called while serve_forever()
+                # is running). The owner waits until the loop is serving.
+                s.sleep(0.25)
         elif is_net and life == "handle-loop":
             nreq = p.get("handle_count", 0)
 
@@ -634,8 +671,9 @@ class SysRun(object):
 
             serve_thread = s.spawn(loop, "handle_loop", "server")
         clients = []
+        nfirst = len(p["clients"]) - (1 if life == "stop-rpc" else 0)
         if life != "never-served":
-            for ci in range(len(p["clients"])):
+            for ci in range(nfirst):
                 clients.append(s.spawn(lambda ci=ci: self.client_body(ci), "client%d" % ci, "client"))
         if life == "close-while-serving":
             # server_close() alone on a serving pooled server (it shuts the loop down itself), while clients still connect
@@ -646,6 +684,16 @@ class SysRun(object):
             self.open_gates()
             self.wait_threads([closer])
             self.wait_threads(clients)
+        elif life == "stop-rpc":
+            # the serving loop is ended by a served method, called by one more client once the others are done; the
+            # owner then only closes the server
+            self.wait_threads(clients)
+            s.emit("clients.done")
+            self.open_gates()
+            last = s.spawn(lambda: self.client_body(nfirst), "client%d" % nfirst, "client")
+            self.wait_threads([last])
+            self.wait_threads([serve_thread])
+            self.lifecycle_op("server_close", srv.server_close)
         elif life == "shutdown-inflight":
             # stop while requests are in flight; they complete once the gates open
             s.sleep(p.get("shutdown_at", 1.0))
@@ -770,15 +818,24 @@ class SysRun(object):
 _QUIET = {}
 
 
-def quiet_handler(js):
-    """One request handler class for every simulated server (as users pass the same class to all their servers)."""
-    if "cls" not in _QUIET:
+def quiet_handler(js, http11=False):
+    """
+    One request handler class for every simulated server (as users pass the same class to all their servers); a
+    second one speaks HTTP/1.1, i.e. keeps connections alive (the usual way to get persistent connections out of
+    http.server). Built again when the library's modules were re-executed (cold start).
+    """
+    if _QUIET.get("base") is not js.SimpleJSONRPCRequestHandler:
         class Quiet(js.SimpleJSONRPCRequestHandler):
             def log_message(self, format, *args):
                 pass  # http.server writes protocol errors to stderr: keep the check's output clean
 
+        class QuietKeepAlive(Quiet):
+            protocol_version = "HTTP/1.1"
+
+        _QUIET["base"] = js.SimpleJSONRPCRequestHandler
         _QUIET["cls"] = Quiet
-    return _QUIET["cls"]
+        _QUIET["cls11"] = QuietKeepAlive
+    return _QUIET["cls11" if http11 else "cls"]
 
 
 def is_real_server(obj):
